@@ -573,12 +573,14 @@ def run_single(cid, tier, seed, out=sys.stdout, property_id=None):
             harness.append('too many inconclusive runs: %d of %d' % (len(inconclusive), len(results)))
     if violations:
         return 1, evidence
-    if harness or timed_out:
+    if timed_out:
+        # the wall-clock budget of the tier is exhausted: what was explored counts, the rest was not run
+        print('BUDGET wall cap %.0fs reached with %d of %d runs done' % (wall_cap, len(results), runs), file=out)
+        if len(results) < runs // 5:
+            harness.append('wall cap reached with less than a fifth of the runs done')
+    if harness:
         for line in harness[:10]:
             print('HARNESS-ERROR %s' % line, file=out)
-        if timed_out:
-            print('HARNESS-TIMEOUT wall cap %.0fs reached with %d of %d runs done' % (wall_cap, len(results), runs),
-                  file=out)
         return 3, evidence
     return 0, evidence
 
